@@ -174,3 +174,12 @@ package pipeline
 //@ func (*Plugin).MarshalJSON
 //@   requires p != nil
 //@   assigns nothing
+
+// ---- matrix emptiness (used by signing) ----
+
+//@ define matrixEmpty(m) := m == nil || (len(m.Setup) == 0 && len(m.Adjustments) == 0 && len(m.RemainingFields) == 0)
+
+//@ func (*Matrix).IsEmpty
+//@   pure
+//@   assigns nothing
+//@   ensures [empty] ret == matrixEmpty(m)
